@@ -121,6 +121,15 @@ class Oracle:
                     d2 = cdiff(tx['var_untyped'], exp, vnames)
                     if d2:
                         rep('variable-type-printed-iff-carried', 'groovy def/typed declarations differ', names=d2[:4])
+                    # local functions are printed as closure variables: `def f = {` iff no (non-void) result type
+                    lnames = (set(ir['local_fun_def']) | set(ir['local_fun_closure'])) - set(ir['var_typed']) - set(ir['var_untyped'])
+                    d6 = cdiff(tx['var_untyped'], ir['local_fun_def'], lnames)
+                    if d6:
+                        self.stats['local_functions_compared'] = self.stats.get('local_functions_compared', 0)
+                        rep('result-type-printed-iff-carried', 'groovy local function: def / Closure<T> differs from the IR',
+                            names=d6[:4], text_counts={k: tx['var_untyped'].get(k, 0) for k in d6[:4]},
+                            ir_counts={k: ir['local_fun_def'].get(k, 0) for k in d6[:4]})
+                    self.stats['groovy_local_functions'] = self.stats.get('groovy_local_functions', 0) + len(lnames)
                 elif L == 'java':
                     if sum(ir['var_untyped'].values()) and not sum(tx['var_untyped'].values()):
                         rep('declared-type-printed-although-erased', 'java prints a type for every variable')
@@ -159,8 +168,14 @@ def run(tier, seed, jobs):
     stats = {}
     samples = []
     plans = []
-    for configs, policies, bound, nslices in plan(tier):
-        tot = explore.explore(configs, policies, bound, SPEC, {}, jobs, seed, nslices)
+    from mc import progfam
+    # hand-built family (mc/progfam.py): every program, every alternative of the overwriting mutation
+    fam = [(progfam.family_configs(pipeline.LANGS, 'all' if tier == 'thorough' else 'mini'), ['first'], 1, 1,
+            {'chunk': 30, 'run_kw': {'deviate_stages': ('overwrite',)}})]
+    for part in fam + [tuple(p_) + ({},) for p_ in plan(tier)]:
+        configs, policies, bound, nslices, extra = part
+        tot = explore.explore(configs, policies, bound, SPEC, {}, jobs, seed, nslices,
+                              run_kw=extra.get('run_kw'), chunk=extra.get('chunk'))
         execs += tot.execs
         trans += tot.transitions
         states |= tot.states
